@@ -31,6 +31,7 @@ theorem stepBase_closed (ort : Bool) (h h' : Heap Val) (s : Step Val) (hc : Clos
     (hstep : stepBase sem ort h s = some h') : Closed h' := by
   cases s with
   | guarded op args g choice => simp [stepBase] at hstep
+  | guarded2 op a b chA chB => simp [stepBase] at hstep
   | data v =>
     simp only [stepBase, Option.some.injEq] at hstep; subst hstep
     exact closed_append h _ hc (by intro w hw; simp at hw; subst hw; rfl)
@@ -82,6 +83,7 @@ theorem stepBase_length (ort : Bool) (h h' : Heap Val) (s : Step Val) (hstep : s
     h'.length = (match s with | .set _ _ => h.length | _ => h.length + 1) := by
   cases s with
   | guarded op args g choice => simp [stepBase] at hstep
+  | guarded2 op a b chA chB => simp [stepBase] at hstep
   | data v => simp only [stepBase, Option.some.injEq] at hstep; subst hstep; simp
   | placeholder n => simp only [stepBase, Option.some.injEq] at hstep; subst hstep; simp
   | prim op args =>
@@ -116,6 +118,7 @@ theorem stepBase_frame (ort : Bool) (h h' : Heap Val) (s : Step Val) (hstep : st
     (i : Nat) (hi : i < h.length) (hne : ∀ d src, s = .set d src → i ≠ d) : h'[i]? = h[i]? := by
   cases s with
   | guarded op args g choice => simp [stepBase] at hstep
+  | guarded2 op a b chA chB => simp [stepBase] at hstep
   | data v => simp only [stepBase, Option.some.injEq] at hstep; subst hstep; simp [List.getElem?_append_left hi]
   | placeholder n => simp only [stepBase, Option.some.injEq] at hstep; subst hstep; simp [List.getElem?_append_left hi]
   | prim op args =>
@@ -164,6 +167,16 @@ theorem resolve_set (h : Heap Val) (s : Step Val) (d src : Nat) : resolve h s = 
         · cases hh
       · cases hh
     · intro hh; cases hh
+  | guarded2 op a b chA chB =>
+    simp only [resolve]
+    constructor
+    · intro hh
+      split at hh
+      · split at hh
+        · cases hh
+        · split at hh <;> cases hh
+      · cases hh
+    · intro hh; cases hh
   | data v => simp [resolve]
   | placeholder n => simp [resolve]
   | prim op args => simp [resolve]
@@ -190,6 +203,20 @@ theorem step_length (ort : Bool) (h h' : Heap Val) (s : Step Val) (hstep : step 
       | prim op' args' => simpa using h1
       | copy r' => simpa using h1
       | guarded _ _ _ _ => simpa using h1
+      | guarded2 _ _ _ _ _ => simpa using h1
+    exact key _ hstep (fun d src hh => by have := (resolve_set h _ d src).mp hh; cases this)
+  | guarded2 op a b chA chB =>
+    have key : ∀ r : Step Val, stepBase sem ort h r = some h' → (∀ d src, r ≠ .set d src) → h'.length = h.length + 1 := by
+      intro r hr hns
+      have h1 := stepBase_length sem ort h h' r hr
+      cases r with
+      | set d src => exact absurd rfl (hns d src)
+      | data v => simpa using h1
+      | placeholder n => simpa using h1
+      | prim op' args' => simpa using h1
+      | copy r' => simpa using h1
+      | guarded _ _ _ _ => simpa using h1
+      | guarded2 _ _ _ _ _ => simpa using h1
     exact key _ hstep (fun d src hh => by have := (resolve_set h _ d src).mp hh; cases this)
   | data v => simpa [resolve] using this
   | placeholder n => simpa [resolve] using this
